@@ -1,6 +1,11 @@
 package workload
 
-import "verif/sim/kernel"
+import (
+	"fmt"
+	"strings"
+
+	"verif/sim/kernel"
+)
 
 func in(js ...string) []kernel.ValueSpec {
 	r := make([]kernel.ValueSpec, len(js))
@@ -441,6 +446,75 @@ var Aliasing = func() []struct{ Src, In string } {
 		`reduce (.e, .a, .z) as $o (null; . + $o)`, `reduce (.a, .e, .z) as $o ({}; . + $o)`, `[.a, .e] | add | .q.r += [2]`, `.a as $a | [$a, {}] | add | .p = 9 | ., $a`, `[.e, .a] | add as $s | $s | .p = 9 | ., $s`,
 	} {
 		out = append(out, struct{ Src, In string }{"(" + src + "), .", objIn})
+	}
+	return out
+}()
+
+// BigOperands: every binary operator and multi-operand builtin applied to operands beyond the
+// small-size thresholds (arrays of 20-40 unsorted elements, objects of 14 keys) that the query does
+// not own: the input, slices of it, a variable ($big / $bigo) and literals embedded in the code.
+// VarNames/VarVals for these programs are BigVarNames/BigVarVals.
+var (
+	BigVarNames = []string{"$big", "$bigo"}
+	BigArrJSON  = func() string {
+		xs := make([]string, 40)
+		for i := range xs {
+			xs[i] = fmt.Sprint((i * 37) % 41)
+		}
+		return "[" + strings.Join(xs, ",") + "]"
+	}()
+	BigObjJSON = func() string {
+		xs := make([]string, 14)
+		for i := range xs {
+			xs[i] = fmt.Sprintf("%q:[%d,{\"z\":%d}]", string(rune('n'-i))+"k", i, (i*5)%14)
+		}
+		return "{" + strings.Join(xs, ",") + "}"
+	}()
+	BigVarVals = []string{
+		`[29,3,17,40,8,21,35,1,12,38,5,26,19,33,7,14,31,2,23,10,36,4,27,16,39,9,20,30,6,25]`,
+		`{"zk":[9,1],"ak":[0,{"z":3}],"mk":1,"bk":[2],"yk":null,"ck":"s","xk":[],"dk":{},"wk":3,"ek":4,"vk":5,"fk":6,"uk":7,"gk":8}`,
+	}
+)
+
+var BigOperands = func() []struct{ Src, In string } {
+	var out []struct{ Src, In string }
+	lit := `[31,2,23,10,36,4,27,16,39,9,20,30,6,25,29,3,17,40,8,21]`
+	arrOperands := []string{`.`, `.[3:25]`, `.[20:]`, `$big`, lit, `.[:18]`}
+	arrBinary := []string{
+		`(X - Y)`, `(X + Y | length)`, `(X == Y)`, `(X < Y)`, `(X | contains(Y))`, `(X | inside(Y))`, `(X | index(Y))`, `(X | indices(Y[0:2]))`, `([X, Y] | transpose | length)`, `(X | bsearch(Y[0]))`,
+		`([X[], Y[]] | unique | length)`, `(X | map(select(. as $e | Y | index($e))) | length)`, `(X | .[Y[0]:Y[1]])`, `(X | IN(Y, X))`, `([X, Y] | sort | .[0][0])`, `([X, Y] | min | .[0])`, `(X | delpaths([[Y[0]], [0]]) | length)`, `([X, Y] | add | length)`, `([X, Y] | flatten | length)`, `(X | getpath([Y[1]]))`,
+	}
+	for _, x := range arrOperands {
+		for _, y := range arrOperands {
+			for _, b := range arrBinary {
+				if len(out)%3 != 0 && x != `$big` && y != `$big` && x != lit && y != lit { // keep the list bounded: all pairs with a variable or literal, a third of the others
+					out = append(out, struct{ Src, In string }{})
+					out = out[:len(out)-1]
+				}
+				src := strings.ReplaceAll(strings.ReplaceAll(b, "X", x), "Y", y)
+				out = append(out, struct{ Src, In string }{src + ", " + x + ", " + y, BigArrJSON})
+			}
+		}
+	}
+	arrUnary := []string{`sort`, `sort_by(-.)`, `group_by(. % 3)`, `unique`, `unique_by(. % 7)`, `min_by(-.)`, `max_by(. % 5)`, `reverse`, `flatten`, `add`, `any`, `all`, `to_entries | length`, `[tostream] | length`, `[paths] | length`, `[limit(3; .[])]`, `first, last`, `@csv`, `tojson | length`, `min, max`, `map(. + 1) | add`, `.[5:20] | sort`, `[.[] | tostring] | join(",") | length`, `implode | length`, `. as [$a, $b] | [$b, $a]`, `to_entries | map(.value) | sort | .[0]`, `[.[] | select(. % 2 == 0)] | length`, `index(7), rindex(7)`, `. - [.[0]] | length`, `[.[:20], .[20:]] | transpose | length`, `combinations(2) | select(.[0] == 40 and .[1] == 39)`}
+	for _, x := range []string{`.`, `$big`, lit} {
+		for _, u := range arrUnary {
+			out = append(out, struct{ Src, In string }{"(" + x + " | " + u + "), " + x, BigArrJSON})
+		}
+	}
+	olit := `{"zk":1,"ak":[0],"mk":{"q":1},"bk":2,"yk":3,"ck":4,"xk":5,"dk":6,"wk":7,"ek":8,"vk":9,"fk":10}`
+	objOperands := []string{`.`, `$bigo`, olit}
+	objOps := []string{`(X + Y | keys | length)`, `(X * Y | keys | length)`, `(X | contains(Y))`, `(X == Y)`, `(X < Y)`, `([X, Y] | unique | length)`, `([X, Y] | sort | .[0] | keys | .[0])`, `([X, Y] | group_by(.ak) | length)`, `([X, Y] | add | keys | length)`, `(X | to_entries | length)`, `(X | keys | .[0])`, `(X | with_entries(.) | keys | length)`, `(X | del(.ak) | keys | length)`, `(X | map_values(.) | keys | length)`, `([X | tostream] | length)`, `([X | paths] | length)`, `(X | tojson | length)`, `(X | has("ak"))`, `(X | to_entries | from_entries | keys | length)`, `(X | [.[]] | length)`, `(X | walk(.) | keys | length)`, `(X | .ak = 1 | keys | length)`, `(X | delpaths([["ak"],["zk"]]) | keys | length)`, `(X | pick(.ak, .zk) | keys)`}
+	for _, x := range objOperands {
+		for _, y := range objOperands {
+			for _, b := range objOps {
+				if !strings.Contains(b, "Y") && y != `.` {
+					continue
+				}
+				src := strings.ReplaceAll(strings.ReplaceAll(b, "X", x), "Y", y)
+				out = append(out, struct{ Src, In string }{src + ", " + x + ", " + y, BigObjJSON})
+			}
+		}
 	}
 	return out
 }()
